@@ -106,7 +106,9 @@ def gen_case(world, tier, prop):
       d = {'dict': [['k%d' % i, it] for i, it in enumerate(items)], 'id': cid}
     else:
       d = {kind: items, 'id': cid}
-    if kind in ('list', 'dict', 'box') and rng.random() < 0.5:
+    share_p = 0.5 if kind in ('list', 'dict', 'box') else (
+        0.35 if 'share' in C.short(d, 10 ** 6) or '"node"' in C.short(d, 10 ** 6) else 0.0)
+    if rng.random() < share_p:   # (tuples / named tuples: only when they hold a Buildable)
       # becomes shareable once made; its definition is hoisted into defs
       defs.append(d)
       cont_ids.append(cid)
